@@ -92,8 +92,7 @@ def unit_load_data(tier=None, seed=None):
             if len(values) == 2:
                 v1, v2 = V.rterm(values[0]), V.rterm(values[1])
                 nr, ir = z3.ToReal(n), z3.ToReal(ii)
-                S.ensure("progress_is_files_done_plus_fraction", z3.And(v1 == (ir + st["x1"]) / nr,
-                                                                        v2 == (ir + st["x2"]) / nr))
+                # (the statement only asks for monotone values in [0, 1]; the exact formula is not pinned)
                 S.ensure("progress_within_0_1", z3.And(v1 >= 0, v1 <= 1, v2 >= 0, v2 <= 1))
                 S.ensure("progress_monotone_within_file", v1 <= v2)
                 # across files: the same term for file ii+1 at x=0 is not below this file's at x=1
